@@ -755,21 +755,25 @@ def extract(repo):
             qn = (impl + "::" if impl else "") + name
             ent = info.setdefault(prop, {"facts": {"fn_gen": {}}, "obligations": []})
             if thm is not None:
-                pf = os.path.join(HERE, "..", "lean", "VlsModel", "Props", prop + "Fn.lean")
+                # (round 9) target key `props_module`: the tying theorems of a file that several properties anchor live in
+                # a module of their own (`Props/HandlerFn.lean`, `Props/ApproverFn.lean`; bin/extra_modules.json makes
+                # `bin/check` build and audit it with those properties) instead of `Props/<property>Fn.lean`
+                pmod = tg.get("props_module") or (prop + "Fn")
+                pf = os.path.join(HERE, "..", "lean", "VlsModel", "Props", pmod + ".lean")
                 if not os.path.exists(pf) or not re.search(r"\btheorem\s+" + re.escape(thm) + r"\b", open(pf).read()):
-                    raise ExtractError("x_fn: target %s names theorem %s which is not in Props/%sFn.lean" % (qn, thm, prop))
+                    raise ExtractError("x_fn: target %s names theorem %s which is not in Props/%s.lean" % (qn, thm, pmod))
             if f is None and prop == FIXTURE_PROP:
                 raise ExtractError("x_fn: translator fixture %s is NOT TRANSLATED: %s" % (qn, u.failed.get((impl, name))))
             if f is None:
                 ent["facts"]["fn_gen"][qn] = {"file": tg["rel"], "area": tg["area"], "translated": False, "why": u.failed.get((impl, name)),
-                                             "tied_by": thm}
+                                             "tied_by": thm, "props_module": tg.get("props_module") or (prop + "Fn")}
                 ent["obligations"].append("Gen.Fn%s: %s is NOT TRANSLATED (outside the subset): %s breaks" % (tg["area"], qn, thm))
                 continue
             ent["facts"]["fn_gen"][qn] = {
                 "file": tg["rel"], "area": tg["area"], "line": f.line, "lean": "VlsModel.Gen.Fn%s.%s" % (tg["area"], f.lean_name),
                 "monadic": f.monadic, "externals": ["%s : %s" % x for x in f.exts], "dropped": f.dropped,
                 "calls": sorted(set(f.callees)), "sha1": hashlib.sha1(f.text.encode()).hexdigest()[:12],
-                "tied_by": thm}
+                "tied_by": thm, "props_module": tg.get("props_module") or (prop + "Fn")}
             if thm:
                 ent["obligations"].append("Gen.Fn%s.%s = hand-written model (theorem %s)" % (tg["area"], f.lean_name, thm))
             if len(tup) > 4 and tup[4] == "snippet":
